@@ -1,7 +1,9 @@
 import XmppModel.Model.Close
 import XmppModel.Model.CloseProbe
+import XmppModel.Model.CloseFraming
 import XmppModel.Lemmas.Close
 import XmppModel.Lemmas.CloseEnv
+import XmppModel.Lemmas.CloseServe
 import XmppModel.Generated.C10
 /-!
 # C10 — closing is idempotent, final and observable
@@ -17,15 +19,19 @@ open XmppModel.Close
 /-- **lock discipline** (what cannot be probed from one goroutine; regenerated from the source by
 an abstract walk that follows calls into the package, closures and method values, accepts if
 chains and switches alike and takes the names of the locks from the exported anchors
-`TokenWriter` / `State`): every exported entry point that looks at or sets the closed bit of the
-output stream — in its body or in any helper — does so while it holds the output lock (so the
-answer of the test cannot be overtaken by a `Close`: hypothesis `checks` of the `Lts` senders, the
-`locked` control point); the input context `SetCloseDeadline` replaces is touched under the state
-mutex only (the data race of round 1). -/
+`TokenWriter` / `State`).  Round E: the walk starts from EVERY exported method of `*Session` (no
+list of names in the extractor); a row is emitted for each one that looks at or sets the closed
+bit of the output stream, in its body or in any helper.  Every such method does so while it holds
+the output lock (so the answer of the test cannot be overtaken by a `Close`: hypothesis `checks`
+of the `Lts` senders, the `locked` control point) — a new exported method that tests the bit
+outside the lock adds a row with `false` —, the methods the models are about are among them, and
+the input context `SetCloseDeadline` replaces is touched under the state mutex only (the data
+race of round 1). -/
 theorem C10_gen_lock_discipline :
-    Generated.C10.closedBitUnderOutputLock = some
-      [("Close", true), ("Encode", true), ("EncodeElement", true), ("Send", true), ("SendElement", true), ("Serve", true)] ∧
-    Generated.C10.deadlineSynchronised = some true := by decide
+    (∃ l, Generated.C10.closedBitUnderOutputLock = some l ∧ l.all (·.2) = true ∧
+      ["Close", "Encode", "EncodeElement", "Send", "SendElement", "Serve"].all (fun n => l.any (·.1 == n)) = true) ∧
+    Generated.C10.deadlineSynchronised = some true :=
+  ⟨⟨_, rfl, by decide, by decide⟩, by decide⟩
 
 /-- **probe fact** (the real session was run by `harness facts`): for every way the streams get
 closed — `Close`, `Close` twice, `Serve` ending on the peer's closing tag, on a handler error
@@ -61,7 +67,7 @@ theorem C10_probe_closed_rows :
   decide
 
 /-- the probe table has a column for every transmit family of the property's text (the same list as
-`C10_gen_entry_points_complete`), for `Close`, and for the two token interfaces -/
+`C10_probe_exported_methods_complete`), for `Close`, and for the two token interfaces -/
 theorem C10_probe_entries_complete :
     ∀ n ∈ ["Send", "SendElement", "Encode", "EncodeElement", "SendIQ", "SendIQElement", "EncodeIQ", "EncodeIQElement",
         "SendMessage", "SendMessageElement", "EncodeMessage", "EncodeMessageElement", "SendPresence",
@@ -74,36 +80,27 @@ transmit entry reaches the connection -/
 example : (Probe.ways.filter fun w => (Probe.stateAfter w).outClosed).length = 8 := by decide
 example : ∀ e ∈ Probe.entries, e.2 ≠ .read → (Probe.cell (Probe.stateAfter ⟨"open", false, []⟩) e).2.2 = true := by decide
 
-/-- the functions of the package that write to the encoder or to the connection themselves:
-the three one-shot transmit functions (they test the closed bit, `C10_gen_checks`), the token
-writer's two methods (they test it per token), the two closers, a read-only probe, and stream
-negotiation (`negotiateSession`, `negotiator`, `writeStreamFeatures`, `teeConn.Write`), which runs
-before the session is handed to its user.  A new function that writes on its own changes this list -/
-def expectedWireFns : List String :=
-  ["Encode", "EncodeElement", "closeSession", "lockWriteCloser.EncodeToken", "lockWriteCloser.Flush",
-   "negotiateSession", "negotiator", "outputBroken", "send", "sendError", "teeConn.Write", "writeStreamFeatures"]
+/-- **probe fact, closure over the API** (round E; replaces the call-graph facts `wireFns` /
+`entryPoints`, which matched names of unexported functions and the spelling of write calls):
+`harness facts` enumerates EVERY exported method of `*Session` by reflection — the harness holds
+no list of names —, calls each with zero / small arguments on fresh sessions whose output was
+closed by `Close`, by `Serve`'s shutdown after the peer's closing tag and after a handler error,
+and records whether the connection saw a `Write`.  No exported method writes to the connection of
+a closed session, however it reaches the wire (`io.WriteString`, `io.Copy`, a `bufio.Writer`, a
+helper of any name): a new exported method that writes on its own is a row with `true`. -/
+theorem C10_probe_exported_methods_silent_when_closed :
+    ∃ t, Generated.C10.exportedMethodsProbe = some t ∧ t.all (fun r => !r.2) = true :=
+  ⟨_, rfl, by decide⟩
 
-theorem C10_gen_wire_fns : Generated.C10.wireFns = some expectedWireFns := by decide
-
-/-- the wire functions whose behaviour with respect to closing is modelled and checked -/
-def checkedWireFns : List String :=
-  ["send", "Encode", "EncodeElement", "lockWriteCloser.EncodeToken", "lockWriteCloser.Flush", "closeSession", "sendError"]
-
-/-- **every exported method of `*Session` that can reach the wire** (Send*, Encode*, SendIQ*,
-SendMessage*, SendPresence*, UnmarshalIQ*, IterIQ*, Close, Serve, …; call graph by name, an
-over-approximation) reaches it only through the checked functions -/
-theorem C10_gen_entry_points :
-    ∃ t, Generated.C10.entryPoints = some t ∧ ∀ e ∈ t, ∀ w ∈ e.2, w ∈ checkedWireFns := by
-  refine ⟨_, rfl, by decide⟩
-
-/-- and the list contains every transmit family of the property's text -/
-theorem C10_gen_entry_points_complete :
-    ∃ t, Generated.C10.entryPoints = some t ∧
+/-- … and the enumeration is not empty: it contains every transmit family of the property's
+text, `Close`, `Serve` and the two token interfaces -/
+theorem C10_probe_exported_methods_complete :
+    ∃ t, Generated.C10.exportedMethodsProbe = some t ∧
       ∀ n ∈ ["Send", "SendElement", "Encode", "EncodeElement", "SendIQ", "SendIQElement", "EncodeIQ", "EncodeIQElement",
         "SendMessage", "SendMessageElement", "EncodeMessage", "EncodeMessageElement", "SendPresence",
         "SendPresenceElement", "EncodePresence", "EncodePresenceElement", "UnmarshalIQ", "UnmarshalIQElement",
-        "IterIQ", "IterIQElement", "Close", "Serve"], n ∈ t.map (·.1) := by
-  refine ⟨_, rfl, by decide⟩
+        "IterIQ", "IterIQElement", "Close", "Serve", "TokenWriter", "TokenReader"], n ∈ t.map (·.1) :=
+  ⟨_, rfl, by decide⟩
 
 /-! ### Interleavings -/
 
@@ -419,6 +416,15 @@ theorem hinv_run (ops : List Op) : ∀ s, HInv s → HInv (run s ops).1 := by
   induction ops with
   | nil => intro s h; exact h
   | cons op ops ih => intro s h; exact ih _ (hinv_step s h op)
+
+/-! Reading guide (review B.3).  The history-machine theorems are of two kinds.  Inductive over every
+history: `C10_hist_close_once`, `C10_hist_close_exactly_once`, `C10_hist_final`, `C10_hist_served_closed`,
+`C10_serve_nil_iff_peer_close`, `C10_last_deadline_wins`, `C10_close_attempt_once`, `C10_tee_close_once`,
+`C10_write_deadline_cleared`.  One-step unfoldings of `step` that DOCUMENT the model (what the differential
+run validates against the code) and are not results: `C10_serve_returns`, `C10_serve_returns_expired`,
+`C10_hist_closed_error`, `C10_read_after`, `C10_deadline_while_serving`, `C10_tee_final`, `C10_dead_encoder`.
+That `Serve` RETURNS (does not hang) is not expressible in a sequential machine; it is
+`C10_serve_returns_when_peer_closed` about `SrvLts` (round E). -/
 
 open Hist in
 /-- **idempotent**: whatever the history, at most one closing tag is written … -/
@@ -930,27 +936,27 @@ theorem C10_serve_nil_fails_with_errors_is :
 
 /-! ### round 5: transmit calls and the connection's deadlines -/
 
-/-- regenerated: which deadline setter of the connection each function of the package mentions.
-`setWriteDeadline` (the watcher of the transmit calls) only the write deadline, `setDeadline`
-(negotiation) both, `SetCloseDeadline` the read deadline (`newConn` declares the optional
-interface of transports without deadlines). -/
-theorem C10_gen_deadline_setters :
-    Generated.C10.deadlineSetters = some
-      [("SetCloseDeadline", ["SetReadDeadline"]), ("newConn", ["SetReadDeadline", "SetWriteDeadline"]),
-       ("setDeadline", ["SetDeadline"]), ("setWriteDeadline", ["SetWriteDeadline"])] := by decide
-
-/-- regenerated: every deadline setter the transmit functions can reach through calls inside the
-package: the write deadline and nothing else -/
-theorem C10_gen_transmit_deadline_setters :
-    Generated.C10.transmitDeadlineSetters = some
-      [("Encode", ["SetWriteDeadline"]), ("EncodeElement", ["SetWriteDeadline"]), ("send", ["SetWriteDeadline"]),
-       ("lockWriteCloser.EncodeToken", []), ("lockWriteCloser.Flush", []), ("lockWriteCloser.Close", [])] := by decide
+open ConnDl in
+/-- **probe fact** (round E; replaces the source facts `deadlineSetters` /
+`transmitDeadlineSetters`, which named the unexported helpers `setWriteDeadline` / `setDeadline`):
+every transmit entry point of the probe table (all 22 families and the token writer's methods) is
+run on a real session whose connection records every deadline call, with a context that outlives
+the call and with a context that is cancelled while the connection write is blocked.  Whatever the
+helper is called and however it is spelled, the only setter a transmit call ever uses is
+`SetWriteDeadline` — the watcher of the model is the write-only one — and with a live context it
+uses none. -/
+theorem C10_probe_transmit_setters :
+    ∃ t, Generated.C10.transmitSetterProbe = some t ∧
+      (∀ r ∈ t, r.2.1 = [] ∧ ∀ n ∈ r.2.2, setterOf n = some Setter.write) ∧
+      -- non-vacuity: the calls that take a context did use the setter when it ended
+      (t.filter (fun r => r.2.2 == ["SetWriteDeadline"])).length = 23 :=
+  ⟨_, rfl, by decide, by decide⟩
 
 open ConnDl in
-/-- … so the watcher of every transmit function is the write-only one of the model -/
-theorem C10_gen_transmit_watcher_write_only :
-    ∀ p ∈ Generated.C10.transmitDeadlineSetters.getD [("none", ["none"])],
-      ∀ n ∈ p.2, setterOf n = some Setter.write := by decide
+/-- **probe fact**: `SetCloseDeadline` moves the read deadline and nothing else -/
+theorem C10_probe_close_deadline_setter :
+    ∃ l, Generated.C10.closeDeadlineSetterProbe = some l ∧ l ≠ [] ∧ ∀ n ∈ l, setterOf n = some Setter.read :=
+  ⟨_, rfl, by decide, by decide⟩
 
 open ConnDl in
 theorem ConnDl.run_write_rd : ∀ (evs : List Ev) (s : St),
@@ -1158,5 +1164,226 @@ theorem C10_cached_bit_unlocked_shutdown_leaks_tokens :
 read then fails -/
 example : (RdLts.run true false RdLts.init [.hAcquire, .hRead, .sStep, .sStep, .sStep, .hRead]) =
     ⟨true, some .h, .holding false, .done, 1, false⟩ := by decide
+
+/-! ### Round E: the framing of the stream (`internal/stream/stream.go`: `Send`, `Close`, `Reader`)
+
+"The closing stream tag" is the closing element of the framing the stream header was written in:
+`</stream:stream>` on TCP, `<close xmlns="urn:ietf:params:xml:ns:xmpp-framing"/>` with the
+WebSocket subprotocol; "the peer closes its stream" is the closing element of that framing
+arriving.  `Framing.run` maps every concrete event to the event of the history machine it is for
+a session of framing `f`, so every `Hist` theorem holds for every framing; these theorems add
+which element is written and which peer event ends `Serve`. -/
+
+open Framing in
+/-- `intstream.Close` after `intstream.Send`: the closing element is the one of the header's framing -/
+theorem C10_framing_close_elem (f : Fr) : closeElem (sendName true f) = f := by cases f <;> rfl
+
+open Framing in
+theorem framing_closeCount (records : Bool) (f : Fr) (w : List Hist.Item) :
+    Framing.closeCount (w.map (render records f)) = Hist.closeCount w := by
+  unfold Framing.closeCount Hist.closeCount
+  rw [List.filter_map, List.length_map]
+  congr 1
+  apply List.filter_congr
+  intro x _
+  cases x <;> rfl
+
+open Framing in
+theorem framing_countOf_own (f : Fr) (w : List Hist.Item) :
+    countOf f (w.map (render true f)) = Hist.closeCount w := by
+  unfold countOf Hist.closeCount
+  rw [List.filter_map, List.length_map]
+  congr 1
+  apply List.filter_congr
+  intro x _
+  cases x <;> cases f <;> rfl
+
+open Framing in
+/-- **idempotent, in every framing, every history** (any order and multiplicity of `Close`,
+transmit calls, peer stanzas, handler errors, the peer's closing element of EITHER framing …): at
+most one closing element of either framing reaches the connection, and it is never the closing
+element of the other framing. -/
+theorem C10_framed_close_once (serve : Bool) (f : Fr) (ops : List Framing.Op) :
+    Framing.closeCount (wire true f (Framing.run true f (Hist.init serve) ops).1) ≤ 1 ∧
+    ∀ g, Tag.close g ∈ wire true f (Framing.run true f (Hist.init serve) ops).1 → g = f := by
+  constructor
+  · unfold wire Framing.run
+    rw [framing_closeCount]
+    exact C10_hist_close_once serve _
+  · intro g hg
+    unfold wire at hg
+    obtain ⟨it, _, hit⟩ := List.mem_map.mp hg
+    cases it with
+    | el => simp [render] at hit
+    | close =>
+      simp only [render, C10_framing_close_elem] at hit
+      injection hit with h
+      exact h.symm
+
+open Framing in
+/-- … and exactly one closing element OF THE STREAM'S FRAMING after any `Close`, whatever
+precedes and follows it -/
+theorem C10_framed_close_exactly_once (serve : Bool) (f : Fr) (ops1 ops2 : List Framing.Op) :
+    countOf f (wire true f (Framing.run true f (Hist.init serve) (ops1 ++ .base .close :: ops2)).1) = 1 := by
+  unfold wire Framing.run
+  rw [framing_countOf_own, List.map_append, List.map_cons]
+  exact C10_hist_close_exactly_once serve _ _
+
+open Framing in
+/-- which concrete peer events are "the peer closes its stream" for a session of framing `f`:
+the closing element of that framing, and no other -/
+theorem C10_framed_peer_close_is_own_framing (f : Fr) (op : Framing.Op) :
+    tr true f op = .peerClose ↔ (op = .base .peerClose ∨ op = .peerEnds f) := by
+  cases op with
+  | base o => simp [tr]
+  | peerEnds g => cases f <;> cases g <;> simp [tr, peerEnd]
+
+open Framing in
+/-- **`Serve` returns nil only when the peer closed its stream in the stream's framing**, every
+history: the closing element of the other framing never ends `Serve` cleanly (on TCP it is an
+element for the handler, with the WebSocket subprotocol `</stream:stream>` is not well-formed) -/
+theorem C10_framed_serve_nil_only_on_own_close (serve : Bool) (f : Fr) (ops : List Framing.Op)
+    (h : (Framing.run true f (Hist.init serve) ops).1.serve = .nil_) :
+    ∃ op ∈ ops, op = .base .peerClose ∨ op = .peerEnds f := by
+  obtain ⟨pre, post, he, _, _⟩ := (C10_serve_nil_iff_peer_close serve _).mp h
+  have hm : Hist.Op.peerClose ∈ ops.map (tr true f) := by rw [he]; simp
+  obtain ⟨op, hop, htr⟩ := List.mem_map.mp hm
+  exact ⟨op, hop, (C10_framed_peer_close_is_own_framing f op).mp htr⟩
+
+/-- non-vacuity / the positive direction on the shortest history, both framings: the closing
+element of the own framing ends `Serve` with nil, both directions closed, own closing element
+written once; the other framing's does not -/
+example : ∀ f : Framing.Fr,
+    (Framing.run true f (Hist.init true) [.peerEnds f]).1.serve = .nil_ ∧
+    Framing.wire true f (Framing.run true f (Hist.init true) [.peerEnds f]).1 = [.close f] := by
+  intro f; cases f <;> decide
+example : (Framing.run true .tcp (Hist.init true) [.peerEnds .ws]).1.serve = .running ∧
+    (Framing.run true .ws (Hist.init true) [.peerEnds .tcp]).1.serve = .garbage := by decide
+
+/-- NOT the code any more (negation witness, the defect repaired by `fix: a WebSocket session is
+closed with </stream:stream> instead of <close/>`): `Send` not recording the framing — `Close` on
+a WebSocket session writes the TCP closing tag -/
+theorem C10_ws_closed_with_tcp_tag_unrecorded :
+    Framing.wire false .ws (Framing.run true .ws (Hist.init true) [.base .close]).1 = [.close .tcp] := by decide
+
+/-- NOT the code any more (negation witness, `fix: sessions negotiated with the WebSocket
+subprotocol are not marked as such …`): on an unmarked session the peer's `<close/>` is handed to
+the handler and `Serve` keeps running -/
+theorem C10_ws_peer_close_ignored_unmarked :
+    (Framing.run false .ws (Hist.init true) [.peerEnds .ws]).1.serve = .running := by decide
+
+/-- **probe fact**: real sessions negotiated by `xmpp.NewNegotiator` and `websocket.Negotiator`
+in the initiating and in the receiving role × eight closing paths (`Close`, twice, the peer's
+closing element of either framing with `Serve` running, then `Close`, a handler error, `Close`
+before the peer's own closing element): closing elements of either framing the connection saw,
+`Serve`'s result, both closed bits — equal to the table the model computes (which does not depend
+on the role). -/
+theorem C10_probe_framing_close :
+    Generated.C10.framingCloseProbe = some (Framing.probeTable true true) := by decide
+
+/-- the probe tells the repaired code from both defective shapes -/
+theorem C10_probe_framing_old_shapes_differ :
+    Framing.probeTable false true ≠ Framing.probeTable true true ∧
+    Framing.probeTable true false ≠ Framing.probeTable true true := by decide
+
+/-! ### Round E: `Serve` as a thread (`SrvLts`): it returns, and it is never stuck for good
+
+`SrvLts` has the `Serve` goroutine with explicit control points (the read under the input lock,
+the handler and its writer taking the output lock while the input lock is held, `sendError`,
+`closeInputStream`: input lock then state mutex, the deferred `Close`: output lock), any number
+of application goroutines holding a token reader / a token writer / calling `Close` or a
+transmit function, the peer and the clock.  A schedule is any list of actions. -/
+
+open SrvLts in
+/-- **`Serve` returns** (the clause a sequential history cannot express): in EVERY reachable
+state — any schedule of `Serve`, application goroutines, peer input, the deadline, with or
+without ill-behaved nesting — in which the peer's closing element has been delivered (or `Serve`
+is already in its shutdown) and no application goroutine holds the input or the output lock,
+`Serve`'s return is reached by steps of `Serve` alone, within `rankS` steps; and it leaves both
+directions marked closed and exactly one closing tag on the wire, the last item. -/
+theorem C10_serve_returns_when_peer_closed (nest : Bool) (acts : List Act)
+    (hf : (run nest init acts).inLock ≠ .app ∧ (run nest init acts).outLock ≠ .app)
+    (hd : (run nest init acts).pending = some .close ∨ inShutdown (run nest init acts).spc = true)
+    (hs : (run nest init acts).spc ≠ .notStarted) :
+    ∃ r, let s' := serveRun (rankS (run nest init acts)) (run nest init acts)
+      s'.spc = .returned r ∧ s'.inClosed = true ∧ s'.outClosed = true ∧
+      ∃ pre, s'.wire = pre ++ [.close] ∧ closeCount pre = 0 := by
+  have inv := inv_run nest acts init inv_init
+  obtain ⟨r, hr⟩ := returns _ _ inv (Nat.le_refl _) hf hd hs
+  have inv' := inv_serveRun (rankS (run nest init acts)) _ inv
+  have hb := inv'.ret r hr
+  exact ⟨r, hr, hb.1, hb.2, inv'.shut hb.2⟩
+
+/-- non-vacuity: `Serve` reading, a stanza answered by the handler, an application `Close` in
+between, then the peer's closing element: all hypotheses hold, `Serve` returns nil, wire
+`el, close` -/
+example :
+    let s := SrvLts.run false SrvLts.init [.start, .serve, .serve, .deliver (.stanza true), .serve, .serve, .serve,
+      .appAcquireOut, .appCloseSession, .appReleaseOut, .deliver .close]
+    (s.inLock ≠ .app ∧ s.outLock ≠ .app) ∧ s.pending = some .close ∧ s.spc = .handling ∧
+    (SrvLts.serveRun (SrvLts.rankS s) s).spc = .returned .nil_ ∧
+    (SrvLts.serveRun (SrvLts.rankS s) s).wire = [.el, .close] := by decide
+
+open SrvLts in
+/-- **no deadlock between `Serve`'s shutdown, the handler's writer and the application**
+(lock order input → state → output, review B.4): for well-behaved application goroutines (each
+holds at most one of the two locks and does not wait while holding it), in every reachable state
+in which `Serve` cannot move it has not been started, has returned, is waiting for the peer or
+the deadline inside its read, or waits for a lock whose holder can release it at once — and then
+`Serve` can move. -/
+theorem C10_serve_never_stuck (acts : List Act) (h : serveStep (run false init acts) = none) :
+    (run false init acts).spc = .notStarted ∨ (∃ r, (run false init acts).spc = .returned r) ∨
+    ((run false init acts).spc = .reading ∧ (run false init acts).pending = none ∧ (run false init acts).expired = false) ∨
+    (∃ s', (step false (run false init acts) .appReleaseIn = some s' ∨
+            step false (run false init acts) .appReleaseOut = some s') ∧ serveStep s' ≠ none) :=
+  never_stuck _ (inv_run false acts init inv_init) (run_pinned acts init rfl) h
+
+/-- NOT well-behaved (negation witness): an application goroutine that holds a token writer and
+asks for a token reader while a handler that holds the input lock wants to reply — `Serve` and
+the application wait for each other for good.  (An application-level deadlock the library cannot
+prevent; it is the reason for the hypothesis of `C10_serve_never_stuck`.) -/
+theorem C10_nested_application_locks_deadlock :
+    let s := SrvLts.run true SrvLts.init [.start, .serve, .serve, .appAcquireOut, .appNest, .deliver (.stanza true), .serve]
+    s.spc = .wantOut ∧ SrvLts.serveStep s = none ∧ SrvLts.step true s .appReleaseOut = none ∧
+    SrvLts.step true s .appNestAcquire = none ∧ SrvLts.step true s .appReleaseIn = none := by decide
+
+open SrvLts in
+/-- **idempotent and final, with `Serve` as a thread**: every schedule (also with ill-behaved
+nesting): at most one closing tag, nothing after it; once `Serve` has returned both directions
+are marked closed and the tag is there -/
+theorem C10_srv_close_once_final (nest : Bool) (acts : List Act) :
+    closeCount (run nest init acts).wire ≤ 1 ∧
+    (∀ pre post, (run nest init acts).wire = pre ++ .close :: post → post = []) ∧
+    (∀ r, (run nest init acts).spc = .returned r →
+      (run nest init acts).inClosed = true ∧ (run nest init acts).outClosed = true ∧
+      closeCount (run nest init acts).wire = 1) := by
+  have inv := inv_run nest acts init inv_init
+  have hcnt : ∀ (h : (run nest init acts).outClosed = true), closeCount (run nest init acts).wire = 1 := by
+    intro h
+    obtain ⟨p, hw, hp⟩ := inv.shut h
+    rw [hw, closeCount_append, hp]; rfl
+  refine ⟨?_, ?_, ?_⟩
+  · cases hc : (run nest init acts).outClosed with
+    | true => rw [hcnt hc]; exact Nat.le_refl 1
+    | false => rw [inv.open_ hc]; exact Nat.zero_le 1
+  · intro pre post hw
+    cases hc : (run nest init acts).outClosed with
+    | false =>
+      have := inv.open_ hc
+      rw [hw, closeCount_append] at this
+      simp [closeCount] at this
+    | true =>
+      obtain ⟨p, hw', hp⟩ := inv.shut hc
+      rcases List.eq_nil_or_concat post with hnil | ⟨post', x, hx⟩
+      · exact hnil
+      · exfalso
+        rw [hx, hw'] at hw
+        have hw2 : p ++ [Item.close] = (pre ++ .close :: post') ++ [x] := by simpa using hw
+        have := (List.append_inj' hw2 rfl).1
+        rw [this, closeCount_append] at hp
+        simp [closeCount] at hp
+  · intro r hr
+    have hb := inv.ret r hr
+    exact ⟨hb.1, hb.2, hcnt hb.2⟩
 
 end XmppModel.Props.C10
